@@ -52,7 +52,7 @@ Step == /\ Len(plan) < NCells(case)
         /\ UNCHANGED <<case, done>>
 Finish == /\ Len(plan) = NCells(case) /\ ~done
           /\ done' = TRUE
-          /\ PrintT("CASE " \o ToString(<<case, Len(WL(case)), Len(FL(case)), Ref(case)>>))
+          /\ PrintT("CASE " \o ToString(<<case, Len(WL(case)), Len(FL(case)), [r \in 1..3 |-> r \in Ref(case)]>>))
           /\ UNCHANGED <<case, plan>>
 Next == Step \/ Finish
 Spec == Init /\ [][Next]_vars
